@@ -113,3 +113,58 @@ back = wrapper("BackAdapter", "after")
 anywhere = wrapper("AnywhereAdapter", "either", query="sequence.upper()")
 nonint_front = wrapper("NonInternalFrontAdapter", "before")
 nonint_back = wrapper("NonInternalBackAdapter", "after")
+
+
+# ------------------------------------------------------------------------------ which aligner an adapter class builds
+from pyvc.api import Real
+# documented placement rules as aligner flags (REFERENCE_START = 1, QUERY_START = 2, REFERENCE_END = 4, QUERY_STOP = 8; the
+# decoding of these bits inside the aligner is part of the finite checks of C01)
+FLAGS = {"FRONT": 1 | 2 | 8, "BACK": 2 | 4 | 8, "ANYWHERE": 15, "FRONT_NOT_INTERNAL": 1 | 8, "BACK_NOT_INTERNAL": 2 | 4}
+AlignerOwnerFields = dict(sequence=Str, max_error_rate=Real, adapter_wildcards=Bool, read_wildcards=Bool, min_overlap=Int, indels=Bool,
+                          _force_anywhere=Bool)
+
+
+def aligner_spec(cx):
+    cx.spec.update(is_class=lambda o, name: z3.BoolVal(o.cls == name.v),
+                   kw=lambda o, name: o.fields.get("kw_" + name.v, o.fields.get(name.v)),
+                   arg=lambda o, k: o.fields["a%d" % (z3.simplify(k).as_long() if is_z3(k) else k)])
+
+
+@contract("adapters.py", "SingleAdapter._make_aligner", props=["C01", "C02", "C18"])
+def make_aligner(c):
+    """The search parameters of the adapter reach the aligner unchanged; indels are switched off by an indel cost that no
+    alignment within tolerance can pay."""
+    c.types(self=ObjT("SingleAdapter", **AlignerOwnerFields), sequence=Str, flags=Int)
+    c.spec(aligner_spec)
+    c.ensures(
+        an_aligner_for_the_given_sequence_and_placement="is_class(result, 'Aligner') and seq_eq(arg(result, 0), sequence) and kw(result, 'flags') == flags",
+        error_rate_and_overlap_of_the_adapter="arg(result, 1) == self.max_error_rate and kw(result, 'min_overlap') == self.min_overlap",
+        wildcard_settings_of_the_adapter="kw(result, 'wildcard_ref') == self.adapter_wildcards and kw(result, 'wildcard_query') == self.read_wildcards",
+        indels_allowed_iff_requested="kw(result, 'indel_cost') == (1 if self.indels else 100000)",
+    )
+    c.mutant("indel_cost = 1 if self.indels else 100000", "indel_cost = 1")
+    c.mutant("wildcard_ref=self.adapter_wildcards", "wildcard_ref=self.read_wildcards")
+
+
+def aligner_of(cls, where, reverse=False, forced=None):
+    @contract("adapters.py", f"{cls}._aligner", props=["C01", "C02", "C18"])
+    def _c(c):
+        c.types(self=ObjT(cls, **AlignerOwnerFields))
+        c.spec(aligner_spec)
+        c.inline.update({"SingleAdapter._make_aligner"})
+        ref = "self.sequence[::-1]" if reverse else "self.sequence"
+        fl = f"({FLAGS['ANYWHERE']} if self._force_anywhere else {FLAGS[where]})" if forced else str(FLAGS[where])
+        c.ensures(placement_rule_of_this_adapter_type=f"kw(result, 'flags') == {fl}",
+                  searches_for_the_adapter_sequence=f"seq_eq(arg(result, 0), {ref})",
+                  with_the_adapters_parameters="arg(result, 1) == self.max_error_rate and kw(result, 'min_overlap') == self.min_overlap and "
+                                               "kw(result, 'indel_cost') == (1 if self.indels else 100000)")
+        c.mutant(f"Where.{where}.value", f"Where.{'FRONT' if where != 'FRONT' else 'BACK'}.value")
+    return _c
+
+
+front_aligner = aligner_of("FrontAdapter", "FRONT", forced=True)
+rightmost_aligner = aligner_of("RightmostFrontAdapter", "BACK", reverse=True, forced=True)
+back_aligner = aligner_of("BackAdapter", "BACK", forced=True)
+anywhere_aligner = aligner_of("AnywhereAdapter", "ANYWHERE")
+nonint_front_aligner = aligner_of("NonInternalFrontAdapter", "FRONT_NOT_INTERNAL")
+nonint_back_aligner = aligner_of("NonInternalBackAdapter", "BACK_NOT_INTERNAL")
